@@ -46,8 +46,10 @@ def spec_paths(tc, name, scratch=None):
     ex = os.path.join(tc.repo, "examples")
     src = RFC_TEXT.get(name)
     if src and os.path.exists(os.path.join(ex, src)) and os.path.exists(os.path.join(ex, "crfc2asn1.pl")):
-        d = os.path.join(scratch or build.scratch_dir("rfc"), "rfc-" + name)
-        os.makedirs(d, exist_ok=True)
+        import tempfile
+        base = scratch or build.scratch_dir("rfc")
+        os.makedirs(base, exist_ok=True)
+        d = tempfile.mkdtemp(prefix="rfc-" + name + "-", dir=base)       # callers run in parallel
         try:
             subprocess.run(["perl", os.path.join(ex, "crfc2asn1.pl"), os.path.join(ex, src)], cwd=d, stdout=subprocess.PIPE,
                            stderr=subprocess.PIPE, timeout=120)
